@@ -28,6 +28,7 @@ type ShimHooks struct {
 	LockFilter    func(m interface{}) bool
 	AtomicThreads map[int]bool
 	waiting       map[int]interface{} // thread -> lock it is parked at
+	waitingW      map[int]bool        // ... for writing
 	// OnReadSection is called when a read lock has been granted (enter=true) and right before it is
 	// released (enter=false).
 	OnReadSection func(tid int, m interface{}, enter bool)
@@ -89,14 +90,31 @@ func (h *ShimHooks) Acquire(m interface{}, write bool) {
 	if h.waiting == nil {
 		h.waiting = map[int]interface{}{}
 	}
+	if h.waitingW == nil {
+		h.waitingW = map[int]bool{}
+	}
 	h.waiting[tid] = m
+	h.waitingW[tid] = write
 	h.S.Point("lock-"+kind+h.name(m), func() bool {
 		if write {
 			return l.writer == -1 && len(l.readers) == 0
 		}
-		return l.writer == -1
+		if l.writer != -1 {
+			return false
+		}
+		// sync.RWMutex: a Lock call that is blocked by readers keeps new readers out (also a reader
+		// that already holds the lock and asks again: recursive read locking deadlocks then)
+		if len(l.readers) > 0 {
+			for t, wm := range h.waiting {
+				if t != tid && wm == m && h.waitingW[t] {
+					return false
+				}
+			}
+		}
+		return true
 	})
 	delete(h.waiting, tid)
+	delete(h.waitingW, tid)
 	if h.S.Poisoned() {
 		return
 	}
